@@ -253,7 +253,7 @@ func (o *out) sep(tok tk) string {
 	if o.noise == 0 {
 		return def
 	}
-	alt := rapid.SampledFrom([]string{"", " ", "  ", "\n", "\n\t", "\n      ", "\t", " \n \n "}).Draw(o.t, "ws")
+	alt := rapid.SampledFrom([]string{"", " ", "  ", "\n", "\n\t", "\n      ", "\t", " \n \n ", "\r\n", "\r\n  "}).Draw(o.t, "ws")
 	if alt == "" && (needSpace(a.s, tok.s) || !o.have) {
 		if !o.have {
 			return ""
